@@ -7,10 +7,12 @@ Exit codes: 0 property held on everything explored (KNOWN-FINDING lines allowed)
 """
 import argparse
 import hashlib
+import contextlib
 import importlib
 import json
 import multiprocessing as mp
 import os
+import signal
 import sys
 import time
 import traceback
@@ -78,6 +80,29 @@ def _hashable(x):
 
 class ShardTimeout(BaseException):
     pass
+
+
+class StepTimeout(BaseException):
+    pass
+
+
+@contextlib.contextmanager
+def step_deadline(seconds):
+    """One call into the code under test that has to return within `seconds`: a loop that never ends is then a finding of that call instead of a
+    shard that hits the watchdog.  Nests inside the shard watchdog (whose remaining time is put back afterwards)."""
+    def on_alarm(signum, frame):
+        raise StepTimeout('no return within %d s' % seconds)
+    old = signal.getsignal(signal.SIGALRM)
+    remaining = signal.alarm(0)
+    signal.signal(signal.SIGALRM, on_alarm)
+    signal.alarm(seconds)
+    try:
+        yield
+    finally:
+        signal.alarm(0)
+        signal.signal(signal.SIGALRM, old)
+        if remaining:
+            signal.alarm(remaining)
 
 
 def _work(arg):
